@@ -963,8 +963,22 @@ fn run(case: &Case) -> CaseReport {
             }
         }
     }
+    // Since the repository refuses a second input on a session (409, fix for the duplicate-stream
+    // defect), a checkpoint rewind is no longer reachable through the router: checkpoints are keyed
+    // by session id and a session takes exactly one input. Rewind mutators are therefore run as
+    // checkpoint-create mutators (rewind itself is covered at the workspace level by C14).
+    let mut rewinds_as_create = 0u64;
+    for m in &mut case.muts {
+        if m.kind == MutKind::CkptRewind {
+            m.kind = MutKind::CkptCreate;
+            rewinds_as_create += 1;
+        }
+    }
     let case = normalise(case);
     let mut rep = RT.with(|rt| rt.block_on(run_async(&case)));
+    if rewinds_as_create > 0 {
+        rep.count("rewind_mutators_run_as_checkpoint_create", rewinds_as_create);
+    }
     if excluded > 0 {
         rep.count("excluded_known_tool_timeout_overlap", excluded);
         rep.class("excluded:tool_envelope_timeout_stripped");
